@@ -26,6 +26,8 @@ ASSUMPTIONS = [
     "xmlschema 4.x is the XSD validator (XSD 1.0 and 1.1 processors); elementpath translates XSD regexes to Python",
     "strings are restricted to XML 1.0 characters without line breaks where a pattern applies",
     "models on which the xsd or python target crashes/reports are counted and skipped (C02)",
+    "function-level pattern sweep: patterns with an escaped backslash, caret, dash or bracket inside a character set are "
+    "not asserted (elementpath is the only XSD regex reader here and these are the corners where readers differ)",
 ]
 
 N_INST_QUICK = 10
@@ -314,6 +316,13 @@ def pattern_case(case: Any, ctx: Any = None) -> List[Tuple[str, str]]:
                 cause = "metacharacter-from-hex-escape"
             else:
                 cause = "other"
+            if cause == "other" and re.search(r"\[[^\]]*(\\\\|\\\^|\\-|\\\]|\\\[)", pat):
+                # escaped backslash / caret / dash / brackets inside a character set: XSD and Python differ in the
+                # set syntax itself and the only XSD regex reader available here (elementpath) is not trusted as
+                # an oracle for these corners - counted, not asserted
+                if ctx is not None:
+                    ctx.exclude("set-syntax-corner-(escaped-backslash-caret-dash-bracket-in-set):oracle-not-trusted")
+                break
             fails.append((f"pattern:string-of-the-language-rejected-by-xsd-pattern:{cause}", f"P={pat!r} X={xp!r} s={sx!r}"))
             break
     if ctx is not None:
